@@ -24,6 +24,19 @@ Theorem C04_lookup_exact :
 Proof. exact lookup_exact. Qed.
 Print Assumptions C04_lookup_exact.
 
+(* The QueryBuilder read path (kolibrie/src/query_builder.rs) over the default graph: with any
+   combination of subject / predicate / object filters it returns exactly the matching
+   default-graph quads of the abstract set, each once, and count() is their number. *)
+Theorem C04_query_builder_exact :
+  forall (ops : list op) (s p o : option N),
+    let st := fst (run init ops) in
+    let sp := fst (srun sinit ops) in
+    NoDup (query_builder st s p o) /\
+    (forall q, In q (query_builder st s p o) <-> (matches 0 s p o q = true /\ In q (sq sp))) /\
+    length (query_builder st s p o) = length (s_query_graph sp 0 s p o).
+Proof. exact query_builder_exact. Qed.
+Print Assumptions C04_query_builder_exact.
+
 (* Named-graph identities: a graph is listed after a history iff some operation created it or
    inserted into it and no later operation dropped it or cleared the whole store. *)
 Definition introduces (g : N) (o : op) : bool :=
@@ -55,4 +68,11 @@ Print Assumptions C04_rebuild.
 Example C04_example :
   let ops := [Insert (1,2,3,1); Insert (1,2,3,2); Delete (1,2,3,1); Drop 1; QNamed (Some 1) None None None; Graphs] in
   snd (run init ops) = [OBool true; OBool true; OBool true; OBool true; OQuads [(1,2,3,2)]; OGraphs [0; 2]].
+Proof. vm_compute. reflexivity. Qed.
+
+Example C04_example_qb :
+  let ops := [Insert (1,2,3,0); Insert (1,2,4,0); Insert (1,2,3,2); Insert (2,2,3,0); Delete (1,2,4,0);
+              QB (Some 1) None None; QB None (Some 2) (Some 3); QBCount None None None] in
+  snd (run init ops) = [OBool true; OBool true; OBool true; OBool true; OBool true;
+                        OQuads [(1,2,3,0)]; OQuads [(1,2,3,0); (2,2,3,0)]; ONum 2].
 Proof. vm_compute. reflexivity. Qed.
